@@ -41,6 +41,15 @@ def _chunk(args):
     return out
 
 
+def _warm():
+    """Pool initializer: import (not execute) the library and the worlds, so that
+    every chunk fork starts warm but from import-time state."""
+    import tracklib  # noqa: F401
+    import tracklib.io  # noqa: F401
+    for w in ("io", "track", "net"):
+        kernel.get_world(w)
+
+
 def _chunk_child(args, conn):
     try:
         conn.send(_chunk_inner(args))
@@ -105,7 +114,7 @@ def run_batch(world, focus, batch_seed, n_runs=None, wall_s=None, workers=None, 
     next_lo = start_index
     end = start_index + n_runs if n_runs is not None else None
     stop = False
-    with ProcessPoolExecutor(max_workers=workers, mp_context=ctx) as ex:
+    with ProcessPoolExecutor(max_workers=workers, mp_context=ctx, initializer=_warm) as ex:
         pending = set()
 
         def submit():
